@@ -15,7 +15,7 @@ def main():
     keys = set()
     for f in sys.argv[1:]:
         fx = Facts(f)
-        keys |= {k for k, v in fx.fns.items() if v["kind"] in ("Fn", "AssocFn")}
+        keys |= {k for k, v in fx.fns.items() if v["kind"] in ("Fn", "AssocFn", "Closure")}
     out = os.path.join(HERE, "spec", "known_items.json")
     json.dump({"comment": "function items of the analysed tree when the rules were written (both feature configurations)", "items": sorted(keys)},
               open(out, "w"), indent=0)
